@@ -99,7 +99,7 @@ def prepare(cfg):
         # warm the compiler natively (it reads its own source with inspect) -- and give any cross-compile
         # state a first occurrence of every clause
         for name in cfg['clauses']:
-            _compile_error(dict(ERR_CLAUSES)[name])
+            _compile_error(dict(ERR_CLAUSES)[name], ERR_OPTIONS.get(name))
 
 
 def valid(t):
@@ -318,6 +318,9 @@ ERR_CLAUSES = [
     ('empty-content', '<div tal:content="">k</div>'),
     ('fill-slot-outside-use', '<div metal:fill-slot="x">k</div>'),
     ('name-outside-translate', '<div i18n:name="x">k</div>'),
+    ('data-unknown-statement', '<div data-tal-contnt="a">k</div>'),
+    ('data-bad-define', '<div data-tal-define="x">k</div>'),
+    ('unknown-statement-renamed-prefix', '<div xmlns:t="http://xml.zope.org/namespaces/tal" t:contnt="a">k</div>'),
     # expressions written over several lines
     ('multiline-content', '<div tal:content="1 +\n  2 +">a</div>'),
     ('multiline-interpolation', '<div>${1 +\n 2 +}</div>'),
@@ -325,19 +328,23 @@ ERR_CLAUSES = [
 ]
 
 
+ERR_OPTIONS = {'data-unknown-statement': {'enable_data_attributes': True},
+               'data-bad-define': {'enable_data_attributes': True}}
+
+
 class NotATemplateError(Exception):
     """a rejection that is not derived from TemplateError (a located error is what the property asks for)"""
     token = None
 
 
-def _compile_error(text):
+def _compile_error(text, opts=None):
     from chameleon import PageTemplate
     from vlib.notrace import NoTracing
     # compile() and the compiler's own use of inspect/textwrap are outside the tracer: the history (which
     # clause, at which offset, in which order) is what the solver ranges over, each compilation is concrete
     with NoTracing():
         try:
-            PageTemplate(text)
+            PageTemplate(text, **(opts or {}))
         except TemplateError as exc:
             return exc
         except Exception as exc:
@@ -372,7 +379,7 @@ def compile_history(k0: int, p0: int, k1: int, p1: int, k2: int, p2: int) -> boo
     for (k, p) in steps:
         name = pickv(clauses, k)
         text = pickv(PADS, p) + dict(ERR_CLAUSES)[name]
-        exc = _compile_error(text)
+        exc = _compile_error(text, ERR_OPTIONS.get(name))
         ok = ok and exc is not None and _located(exc, text)
     return _res(ok)
 
